@@ -803,7 +803,16 @@ def oracle_C12(results, metas, st):
         ops = [e[1] for e in spec if e[0] == 'ops'][0]
         run_items = find_items(r['cxx'], 'run'); run_ops = [o for o in ops if o[0] == 'run']
         n_before = 0
-        for item, op in zip(run_items, run_ops):
+        # the number of results the checkpoint holds when each run starts (a rollback that is accepted shortens it)
+        starts = []; n_now = 0; ri = 0
+        for op in ops:
+            if op[0] == 'run':
+                starts.append(n_now)
+                if ri < len(run_items): n_now += len(run_items[ri][1][1:])
+                ri += 1
+            elif op[0] == 'rollback' and op[1] <= n_now:
+                n_now = op[1]
+        for item, op, n_before in zip(run_items, run_ops, starts):
             cbs = item[1][1:]
             want = len(op[1])
             ns = [c[0] for c in cbs]; gos = [c[1] for c in cbs]
@@ -847,7 +856,6 @@ def oracle_C12(results, metas, st):
                         bad = 'iteration %d: the combined relative error %.6g has reached the target %s but the run went on' % (i, float(ratio2) ** 0.5, fstr(target)); break
                 if bad:
                     out.append(viol(bad, [r['case']])); break
-            n_before += len(cbs)
     return out
 
 def oracle_C15(results, metas, st):
